@@ -633,6 +633,14 @@ func c18Gen(t *rapid.T) c18Case {
 	if c.Def.Parallel == 0 && c18Chance(t, "dupentry", 1) {
 		c.Entries = append(c.Entries, c.Entries[rapid.IntRange(0, len(c.Entries)-1).Draw(t, "dupwhich")])
 	}
+	// a target that validates references rejects the partial index a `platforms:` list produces (400, retried
+	// with back-off for seconds): that combination only yields slow error runs
+	for _, e := range c.Entries {
+		if len(e.Platforms) > 0 {
+			c.TgtFeat.Validate = false
+			c.SrcFeat.Validate = false
+		}
+	}
 	c.Def.Cache = c18Chance(t, "d_cache", 2)
 	c.Def.RefFilters = c18GenRefFilters(t, "d_rf", 1)
 	if c18Chance(t, "d_rl", 1) {
